@@ -5,6 +5,7 @@ and *all* reachable states `reach (init tbl pref main) n` of the loop model; the
 which the check also evaluates on traces observed from the real IOLoop.
 -/
 import TornadoModel.C38.Lemmas
+import TornadoModel.C38.Inv2
 import TornadoModel.C38.XThread
 namespace TornadoModel.C38
 open Spec
@@ -112,15 +113,60 @@ theorem run_sync_timeout (d t : Nat) (ok : Bool) (h : t ≤ d) :
 theorem run_sync_never_completing (ok : Bool) (t : Nat) : runSync (.awaitable none ok) (some t) = .timeoutError := by
   simp [runSync, loopPhase]
 
-/-! Stated, not proved here (checked on every observed trace by the tie; see docs/C38.md):
-the invariant needed relates the sorted batch of due timers to the ghost field `moved`. -/
-def timeout_order_goal : Prop :=
-  ∀ (tbl : List Body) (pref : List Nat) (main : List Act) (n : Nat), whenOrder (traceOf tbl pref main n)
-def timeout_at_most_once_goal : Prop :=
-  ∀ (tbl : List Body) (pref : List Nat) (main : List Act) (n : Nat), timerAtMostOnce (traceOf tbl pref main n)
-def timeout_all_accounted_goal : Prop :=
-  ∀ (tbl : List Body) (pref : List Nat) (main : List Act) (n : Nat),
-    halted (reach (init tbl pref main) n) = true → timersAccounted (traceOf tbl pref main n)
+/-! ### timeouts: order, at most once, all accounted (Inv2.lean: the timer view of the loop is an abstract timer machine
+`TStep`; its invariants `InvO`, `InvG`, `InvH` say that every timer handle occurs exactly once among
+{armed, in the current batch, run} unless removed, and that the batch of due timers is sorted below `moved`) -/
+
+/-- **timeout_order**: timeouts run in non-decreasing order of effective deadline (`when = max deadline scheduleTime`),
+whatever the tie-break `pref` among equal deadlines. -/
+theorem timeout_order (tbl : List Body) (pref : List Nat) (main : List Act) (n : Nat) :
+    whenOrder (traceOf tbl pref main n) := by
+  have h := reach_view_inv InvO invO_step tbl pref main (invO_init tbl pref main) n
+  unfold whenOrder traceOf
+  rw [← ranWhen_view]
+  exact h.2.2.2.2.2
+
+/-- **timeout_at_most_once**: no timeout handle runs twice. -/
+theorem timeout_at_most_once (tbl : List Body) (pref : List Nat) (main : List Act) (n : Nat) :
+    timerAtMostOnce (traceOf tbl pref main n) := by
+  have h := reach_view_inv InvG invG_step tbl pref main (invG_init tbl pref main) n
+  unfold timerAtMostOnce traceOf
+  rw [← ranTh_view]
+  exact h.2.2.2
+
+/-- **timeout_pending_or_done** (the invariant behind the next theorem, at *every* moment): each scheduled timeout has
+run, has been removed, or is still pending — armed, or moved to the ready queue of the current iteration. -/
+theorem timeout_pending_or_done (tbl : List Body) (pref : List Nat) (main : List Act) (n : Nat) :
+    ∀ h ∈ (traceOf tbl pref main n).filterMap schedTh,
+      (traceOf tbl pref main n).any (isRanOf h) = true ∨ Ev.removed h ∈ traceOf tbl pref main n ∨
+      (∃ t ∈ (reach (init tbl pref main) n).timers, t.h = h) ∨
+      (∃ t c, Item.tcb t c ∈ (reach (init tbl pref main) n).batch ∧ t.h = h) := by
+  have hH := reach_view_inv InvH invH_step tbl pref main (invH_init tbl pref main) n
+  intro h hh
+  unfold traceOf at hh ⊢
+  rw [← schedTh_view] at hh
+  rcases hH.1 h hh with x | x | x
+  · exact Or.inl (any_mono_filter _ _ x)
+  · exact Or.inr (Or.inl (List.mem_filter.mp x).1)
+  · unfold handles view at x
+    simp only [List.mem_append, List.mem_map, List.mem_filterMap] at x
+    rcases x with ⟨t, ht, rfl⟩ | ⟨p, ⟨it, hit, hp⟩, rfl⟩
+    · exact Or.inr (Or.inr (Or.inl ⟨t, ht, rfl⟩))
+    · cases it with
+      | tcb t c => simp at hp; subst hp; exact Or.inr (Or.inr (Or.inr ⟨t, c, hit, rfl⟩))
+      | _ => simp at hp
+
+/-- **timeout_all_accounted**: when the loop is idle every scheduled timeout has either run or been removed — none is
+lost. (With `timeout_at_most_once` and `removed_never_runs`: run exactly once, or removed and never run afterwards.) -/
+theorem timeout_all_accounted (tbl : List Body) (pref : List Nat) (main : List Act) (n : Nat)
+    (hh : halted (reach (init tbl pref main) n) = true) : timersAccounted (traceOf tbl pref main n) := by
+  intro h hm
+  simp [halted] at hh
+  rcases timeout_pending_or_done tbl pref main n h hm with x | x | ⟨t, ht, _⟩ | ⟨t, c, ht, _⟩
+  · exact Or.inl x
+  · exact Or.inr x
+  · rw [hh.2] at ht; cases ht
+  · rw [hh.1.1.2] at ht; cases ht
 
 /-! ### non-vacuity: a program with a raising callback, a failed future, a removed timeout, a timeout in the past,
 a late timeout and an `add_future` on an already resolved future runs to idleness and exercises every clause -/
@@ -135,6 +181,12 @@ def demoMain : List Act :=
   [.addCb 0, .addTmo .later 3 2 0, .addTmo .abs 50 2 1, .addTmo .at (-5) 3 2, .resolve 0 true]
 
 example : halted (runFuel 200 (init demoTbl [] demoMain)) = true := by decide
+/-- non-vacuity of `timeout_all_accounted`: the demo program is idle after 24 micro-steps, with three timeouts scheduled,
+two run (effective deadlines 0 then 3) and one removed -/
+example : halted (reach (init demoTbl [] demoMain) 24) = true := by decide
+example : (traceOf demoTbl [] demoMain 24).filterMap schedTh = [0, 1, 2] := by decide
+example : (traceOf demoTbl [] demoMain 24).filterMap ranWhen = [0, 3] := by decide
+example : Ev.removed 1 ∈ traceOf demoTbl [] demoMain 24 := by decide
 example : (runFuel 200 (init demoTbl [] demoMain)).log.filterMap ranSid = [0, 1] := by decide
 example : (runFuel 200 (init demoTbl [] demoMain)).log.filterMap ranTh = [2, 0] := by decide
 example : Ev.removed 1 ∈ (runFuel 200 (init demoTbl [] demoMain)).log := by decide
